@@ -242,6 +242,8 @@ func runC53(c *Ctx) {
 					switch {
 					case fn.Name() == "Grow" && len(call.Args) == 1:
 						sizeArgs, sink = call.Args, "Grow"
+					case fn.Pkg().Path() == "slices" && fn.Name() == "Grow" && len(call.Args) == 2:
+						sizeArgs, sink = call.Args[1:], "slices.Grow"
 					case fn.Pkg().Path() == "io" && fn.Name() == "CopyN" && len(call.Args) == 3:
 						sizeArgs, sink = call.Args[2:], "io.CopyN"
 					default:
